@@ -2,6 +2,8 @@
 #include <cmath>
 #include <fstream>
 #include <iostream>
+#include <sstream>
+#include <cstdlib>
 #include <vector>
 
 #include <bxdecay0/event.h>
@@ -34,9 +36,9 @@ extern "C" int LLVMFuzzerTestOneInput(const uint8_t * data, size_t size)
   cfg.event_files = files;
   cfg.start_event = start;
   cfg.max_nb_events = mx;
+  int n = 0;
   try {
     bxdecay0::event_reader rd(cfg);
-    int n = 0;
     while (rd.has_next_event() && n < 300) {
       bxdecay0::event e;
       rd.load_next_event(e);
@@ -44,6 +46,26 @@ extern "C" int LLVMFuzzerTestOneInput(const uint8_t * data, size_t size)
       // a successful load must satisfy the loader's own validity predicate
       if (!e.is_valid()) FZ_VIOLATION("event_reader delivered an event that is not is_valid()");
       if (mx > 0 && n > mx) FZ_VIOLATION("event_reader delivered more than max_nb_events events");
+    }
+    // the loader's own rule for the record header: the particle count is a non-negative number (it refuses "nbParticles < 0").  With one
+    // file read from its start, the first record's count is the fourth token of the file: if that token is a negative number and an
+    // event was delivered all the same, the rule was not applied (a count read into an unsigned wraps modulo 2^32 without failing)
+    if (files.size() == 1 && start == 0 && n >= 1) {
+      std::istringstream in(std::string((const char *)data, size));
+      std::string tok[4];
+      if (in >> tok[0] >> tok[1] >> tok[2] >> tok[3]) {
+        // (only where white-space tokens and the reader's numeric extraction agree about the fields: a plain unsigned identifier, a time
+        //  that is one complete number, a printable label, a count that is one complete integer)
+        bool plain = !tok[0].empty() && tok[0].find_first_not_of("0123456789") == std::string::npos && tok[0].size() < 9;
+        char * end = nullptr;
+        (void)strtod(tok[1].c_str(), &end);
+        plain = plain && end == tok[1].c_str() + tok[1].size() && !tok[1].empty() && tok[1].find_first_not_of("+-.0123456789eE") == std::string::npos;
+        for (unsigned char ch : tok[2]) plain = plain && ch > 32 && ch < 127;
+        end = nullptr;
+        long long c = strtoll(tok[3].c_str(), &end, 10);
+        plain = plain && end == tok[3].c_str() + tok[3].size() && !tok[3].empty() && tok[3].find_first_not_of("-0123456789") == std::string::npos;
+        if (plain && c < 0) FZ_VIOLATION("event_reader delivered an event from a record whose particle count is negative");
+      }
     }
   } catch (std::exception &) {
     // a clean error is the right answer to a malformed file
